@@ -252,6 +252,72 @@ theorem mono {σ ε : Type} (M : Machine σ ε)
         rw [hstep s f hn m m' s s' h hf]
         exact ih s' hr
 
+/-- **strict_failure_is_a_step_failure** (abstract machine, all steps `StepMono`): if the run fails
+    under `m` but succeeds under a weaker `m'`, then both runs are in the same state `s` when the
+    `m`-run fails, and the step taken there fails under `m` and succeeds under `m'` — the stricter
+    mode added exactly that error, nothing before it differs. -/
+theorem strict_failure_is_a_step_failure {σ ε : Type} (M : Machine σ ε)
+    (hstep : ∀ s f, M.next s = some f → StepMono f)
+    (m m' : Mode) (h : m' ≤ m) (n : Nat) (s r : σ) (e : ε) :
+    M.run m n s = .error e → M.run m' n s = .ok r →
+    ∃ s₀ f s₁, M.next s₀ = some f ∧ f m s₀ = .error e ∧ f m' s₀ = .ok s₁ := by
+  induction n generalizing s with
+  | zero =>
+    intro hm hm'
+    unfold Machine.run at hm hm'
+    cases hn : M.next s with
+    | none => simp [hn] at hm
+    | some f => simp [hn] at hm'
+  | succ n ih =>
+    intro hm hm'
+    unfold Machine.run at hm hm'
+    cases hn : M.next s with
+    | none => simp [hn] at hm
+    | some f =>
+      simp only [hn] at hm hm'
+      cases hf' : f m' s with
+      | error e' => simp [hf'] at hm'
+      | ok s₁ =>
+        cases hf : f m s with
+        | error e' =>
+          simp only [hf] at hm
+          cases hm
+          exact ⟨s, f, s₁, hn, hf, hf'⟩
+        | ok s₂ =>
+          have := hstep s f hn m m' s s₂ h hf
+          rw [hf'] at this
+          cases this
+          simp only [hf] at hm
+          simp only [hf'] at hm'
+          exact ih s₁ hm hm'
+
+/-- **vm_strict_failure**: in the VM model, an error that a stricter mode adds to a render that
+    succeeds under a weaker mode is the `UndefinedError` of one of the helper questions of the
+    failing instruction, as that question reports it (`AskErr`: plain, rewritten by a `.map_err`
+    around the helper call, or wrapped as `BadInclude` inside an included template). -/
+theorem vm_strict_failure (ops : Ops) (P : Prog) (m m' : Mode) (h : m' ≤ m) (fuel : Nat) (s r : St) (e : Err) :
+    runVm ops P m fuel s = .error e → runVm ops P m' fuel s = .ok r →
+    ∃ s₀ c, nextC ops P s₀ = some c ∧ c.AskErr e := by
+  intro hm hm'
+  have hstep : ∀ s f, (vm ops P).next s = some f → StepMono f := by
+    intro s f hf
+    simp only [vm] at hf
+    cases hn : nextC ops P s with
+    | none => simp [hn] at hf
+    | some c =>
+      simp only [hn, Option.map_some, Option.some.injEq] at hf
+      subst hf
+      intro m m' _ s' h hs
+      exact Comp.run_mono c m m' h s' hs
+  obtain ⟨s₀, f, s₁, hn, hf, hf'⟩ := strict_failure_is_a_step_failure (vm ops P) hstep m m' h fuel s r e hm hm'
+  simp only [vm] at hn
+  cases hc : nextC ops P s₀ with
+  | none => simp [hc] at hn
+  | some c =>
+    simp only [hc, Option.map_some, Option.some.injEq] at hn
+    subst hn
+    exact ⟨s₀, c, hc, Comp.run_err_of_ok c m m' e s₁ hf hf'⟩
+
 /-- **step_mono**: every instruction of the VM model satisfies `StepMono`, whatever the abstract
     operations and the program -/
 theorem step_mono (ops : Ops) (P : Prog) (i : Instr) : StepMono (fun m s => step ops P m i s) := by
@@ -434,6 +500,43 @@ theorem vm_sites_as_modelled :
       ("fn:merge_kwargs", [("assert_iterable", "value")])] ∧
     MJ.Gen.undefVmInlineModeTests = 3 ∧ MJ.Gen.undefModeCount = 4 ∧
     MJ.Gen.undefDefaultMode = Mode.lenient.code := ⟨rfl, rfl, rfl, rfl⟩
+
+/-- The registered builtins whose source can reach the mode — directly through helpers
+    (`undefined_behavior()`, with the helper calls in order), through the formatter
+    (`.format(state)`) or by calling another filter / test (`.call(state, ..)`), transitively over
+    the local functions they call — extracted from filters.rs / tests.rs / functions.rs on every
+    run.  Every other registered builtin is mode-independent after its argument conversion
+    (`pure_builtin_independent_after_conversion`; validated on the `call` / `sweep` streams).  The
+    hand models in `filterBody` / `testBody` ask exactly the listed helpers. -/
+theorem builtin_sites_as_modelled :
+    (MJ.Gen.undefBuiltinSigs.filter (fun r => !r.2.2.2.1.isEmpty)).map (fun r => (r.1, r.2.1, r.2.2.2.1, r.2.2.2.2)) = [
+      ("filter", "escape", ["format"], []),
+      ("filter", "e", ["format"], []),
+      ("filter", "replace", ["format"], []),
+      ("filter", "join", ["format"], []),
+      ("filter", "default", ["undefined_behavior"], ["is_true"]),
+      ("filter", "d", ["undefined_behavior"], ["is_true"]),
+      ("filter", "int", ["undefined_behavior"], ["assert_value_not_undefined"]),
+      ("filter", "float", ["undefined_behavior"], ["assert_value_not_undefined"]),
+      ("filter", "attr", ["undefined_behavior"], ["handle_undefined"]),
+      ("filter", "min", ["undefined_behavior"], ["try_iter"]),
+      ("filter", "max", ["undefined_behavior"], ["try_iter"]),
+      ("filter", "sort", ["undefined_behavior"], ["try_iter"]),
+      ("filter", "list", ["undefined_behavior"], ["try_iter"]),
+      ("filter", "string", ["undefined_behavior"], ["assert_value_not_undefined"]),
+      ("filter", "bool", ["undefined_behavior"], ["is_true"]),
+      ("filter", "batch", ["undefined_behavior"], ["try_iter"]),
+      ("filter", "slice", ["undefined_behavior"], ["try_iter"]),
+      ("filter", "sum", ["undefined_behavior"], ["try_iter", "handle_undefined"]),
+      ("filter", "select", ["call", "undefined_behavior"], ["try_iter"]),
+      ("filter", "reject", ["call", "undefined_behavior"], ["try_iter"]),
+      ("filter", "selectattr", ["call", "undefined_behavior"], ["try_iter"]),
+      ("filter", "rejectattr", ["call", "undefined_behavior"], ["try_iter"]),
+      ("filter", "map", ["call", "undefined_behavior"], ["try_iter", "try_iter"]),
+      ("filter", "unique", ["undefined_behavior"], ["try_iter"]),
+      ("filter", "format", ["format"], []),
+      ("test", "in", ["undefined_behavior"], ["assert_iterable"])] ∧
+    MJ.Gen.undefBuiltinSigs.length = 95 := by decide
 
 /-! ## full statement -/
 
